@@ -345,7 +345,7 @@ fn duplicate_a_directive(cx: &mut Cx, f: &mut RenderedFile) -> bool {
 pub fn install_tree(fs: &Rc<SimFs>, cx: &mut Cx, root: &RenderedFile) {
     for f in root.all_files() {
         // included A2L files are sometimes stored in another encoding than the main file
-        let bytes = if f.path != root.path && !f.path.ends_with(".aml") && cx.tape.chance(1, 8) && f.text.as_bytes().first().is_some_and(u8::is_ascii) {
+        let bytes = if f.path != root.path && cx.tape.chance(1, 8) && f.text.as_bytes().first().is_some_and(u8::is_ascii) {
             cx.probe("include-file-in-utf16");
             crate::c17::encode(&f.text, crate::c17::Enc::Utf16Le, true)
         } else {
